@@ -155,7 +155,11 @@ static void case_f(ByteSource& in, CaseInfo& ci) {
     case 2: { uint64_t v = in.flag() ? T.abs().low() + (uint64_t)in.range(0, 1) : PALETTE[in.u8() & 7]; ci.d(" ui=%llu", (unsigned long long)v); int g = mpf_cmp_ui(a.f, v), e = cmp_dy(a.v, Dy{Int::from_u64(v), 0}); REQUIRE(sgn3(g) == sgn3(e), "mpf_cmp_ui: returned %d, exact sign %d", g, e); break; }
     case 3: { int64_t v = in.flag() ? (int64_t)T.low() * (T.neg ? -1 : 1) : (int64_t)PALETTE[in.u8() & 7]; if (in.chance(30)) v = in.flag() ? INT64_MIN : INT64_MAX; ci.d(" si=%lld", (long long)v); int g = mpf_cmp_si(a.f, v), e = cmp_dy(a.v, Dy{Int((long long)v), 0}); REQUIRE(sgn3(g) == sgn3(e), "mpf_cmp_si: returned %d, exact sign %d", g, e); break; }
     case 4: { Z z; Int zz = in.flag() ? T + Int((long long)in.srange(-1, 1)) : gen_boundary_int(in, 6); mpz_from_int(z, zz); int g = mpf_cmp_z(a.f, z), e = cmp_dy(a.v, Dy{zz, 0}); REQUIRE(sgn3(g) == sgn3(e), "mpf_cmp_z: returned %d, exact sign %d", g, e); break; }
-    case 5: { int zone; double e = a.v.e >= 0 ? trunc_to_double(ref::shl(a.v.m, a.v.e), Int(1), zone) : trunc_to_double(a.v.m, ref::pow2(-a.v.e), zone); double g = mpf_get_d(a.f);
+    case 5: { if (!a.v.m.is_zero() && in.chance(50)) {   // exponents far outside the double range, up to what an mp_exp_t holds: infinity / zero (truncation) expected
+        static const long HE[] = {1L << 57, (1L << 57) + 1, 1L << 58, (1L << 58) - 1, 1L << 60, (1L << 62), 20, 17, 100000}; long he = HE[in.range(0, 8)]; bool up = in.flag(); a.f->_mp_exp = up ? he : -he; double g = mpf_get_d(a.f);
+        double want = up ? (a.v.m.neg ? -INFINITY : INFINITY) : (a.v.m.neg ? -0.0 : 0.0); ci.label("mpf_get_d:huge_exponent"); ci.d(" exponent set to %s%ld limbs", up ? "" : "-", he);
+        REQUIRE(g == want, "mpf_get_d of a value with exponent %s%ld limbs: returned %a, expected %a", up ? "" : "-", he, g, want); break; }
+      int zone; double e = a.v.e >= 0 ? trunc_to_double(ref::shl(a.v.m, a.v.e), Int(1), zone) : trunc_to_double(a.v.m, ref::pow2(-a.v.e), zone); double g = mpf_get_d(a.f);
       if (zone == -1) REQUIRE(g == e || g == 0.0, "mpf_get_d: returned %a below the normal range (exact %a or 0 accepted)", g, e); else REQUIRE(g == e, "mpf_get_d: returned %a, exact truncation toward zero is %a", g, e); break; }
     case 6: { mpir_si ex = 777; double g = mpf_get_d_2exp(&ex, a.f); if (a.v.m.is_zero()) { REQUIRE(g == 0.0 && ex == 0, "mpf_get_d_2exp(0)"); break; }
       long E = (long)a.v.m.bits() + a.v.e; REQUIRE(std::fabs(g) >= 0.5 && std::fabs(g) < 1.0, "mpf_get_d_2exp: |d| = %a outside [0.5,1)", g); REQUIRE((long)ex == E, "mpf_get_d_2exp: exponent %ld, expected %ld", (long)ex, E);
@@ -197,6 +201,6 @@ static void sweep_item(uint64_t i, CaseInfo& ci) {
 namespace eng {
 PropDef g_prop = {"C11",
   "Cases: integers / rationals / hand-built mpf values at 0, +-1, +-2^k, +-2^k+-1,2 for k in {7,8,15,16,31,32,52,53,54,62,63,64,65,127,128,1023,1024,1074} and random; doubles from bit patterns (subnormals, 2^k neighbourhoods, halves, huge exponents, +-inf, +-0; never NaN) and doubles adjacent to the integer operand; values with more than 53 significant bits whose discarded part exceeds half an ulp; mpq_cmp_ui/si with common factors in num2/den2 and with the non-canonical equal value; mpf values in a different representation of the same number. Functions: mpz_cmp/cmpabs/_ui/_si/_d/sgn, mpz_set_ui/si/ux/sx/d, mpz_get_ui/si/ux/sx/d/d_2exp, the eight mpz_fits_*_p, mpq_cmp/_ui/_si/_z/equal/get_d, mpf_cmp/_d/_ui/_si/_z, mpf_get_d/d_2exp/si/ui, mpf_integer_p, the six mpf_fits_*_p. Oracle: refint exact rational comparison and exact IEEE truncation toward zero (infinity on overflow; below the normal range the exact subnormal truncation or 0.0 is accepted because the manual calls that range system dependent); get_si/get_ui outside the representable range is not asserted. Non-trivial: non-zero operand. Distinct = hash of all decoded choices.",
-  check, nullptr, {"mpf_cmp_d:a_next_to_d", "double:subnormal", "double:near_2^k", "double:inf", "more_than_53_bits", "cmp_d:more_than_53_bits", "get_d:overflow", "get_d:below_normal_range", "cmp_ui:common_factor", "mpf:near_boundary", "mpf_cmp:equal_different_repr", "set_d:fraction"}, nullptr, sweep_count, sweep_item,
+  check, nullptr, {"mpf_cmp_d:a_next_to_d", "mpf_get_d:huge_exponent", "double:subnormal", "double:near_2^k", "double:inf", "more_than_53_bits", "cmp_d:more_than_53_bits", "get_d:overflow", "get_d:below_normal_range", "cmp_ui:common_factor", "mpf:near_boundary", "mpf_cmp:equal_different_repr", "set_d:fraction"}, nullptr, sweep_count, sweep_item,
   "every pair of signed values of up to three limbs with limbs from {0,1,2^63-1,2^63,2^64-2,2^64-1} (432 x 432): mpz_cmp, mpz_cmpabs, mpz_cmp_ui/_si/cmpabs_ui with the low limb of b, mpz_cmp_d/cmpabs_d with b as a double when exactly representable; for every value: mpz_sgn, get_ui, get_si (in range), the six fits predicates, mpz_get_d"};
 }
